@@ -56,9 +56,10 @@ def maxfinite(fmt):
 # ---------------------------------------------------------------------------------------------
 @total("SymW", describe=lambda x, qt, scale, axis, route, tag=None: {"qt": qt, "fmt": FMT_NAME.get(x.dtype), "shape": list(x.shape), "axis": "none" if axis is None else axis, "route": route, "tag": tag})
 def sym_event(x, qt, scale, axis, route, tag=None):
-    """x: float tensor; scale: 0-dim or per-axis tensor (same dtype)."""
+    """x: float tensor; scale: 0-dim or per-axis tensor (same dtype).
+    tag "alias": the call is made with quanto's `qfloat8` (its name for float8_e4m3fn), judged on the e4m3fn grid."""
     fmt = FMT_NAME[x.dtype]
-    qtype = qtypes[qt]
+    qtype = qtypes["qfloat8"] if (tag == "alias" and qt == "qfloat8_e4m3fn") else qtypes[qt]
     if route == "activation":
         q = quantize_activation(x, qtype, scale)
     else:
@@ -87,7 +88,8 @@ def sym_event(x, qt, scale, axis, route, tag=None):
           "x": [big(v, E) for v in xs], "dq": [big(v, E) for v in dqs],
           "code": codes_of(q._data, qt), "code2": codes_of(q2._data, qt),
           "shape": list(x.shape), "axis": "none" if axis is None else axis, "route": route,
-          "out_shape": list(q.shape), "out_dtype": FMT_NAME.get(q.dtype, str(q.dtype)), "out_qtype": q.qtype.name,
+          "out_shape": list(q.shape), "out_dtype": FMT_NAME.get(q.dtype, str(q.dtype)),
+          "out_qtype": qt if (q.qtype is qtype and q.qtype.name == "qfloat8" and qt == "qfloat8_e4m3fn") else q.qtype.name,
           "nonfinite_dq": sum(1 for v in dqs if isinstance(v, str)), "nonfinite_judged_by_c16": False}
     if tag:
         ev["tag"] = tag
@@ -156,6 +158,15 @@ def drive_sym_wide(req):
                 sshape[0 if axis == 0 else -1] = n
                 sc = torch.tensor([rnd.uniform(0.003, 0.2) * (4 ** i) for i in range(n)]).reshape(sshape).to(dtype)
                 traces.append([sym_event(x, qt, sc, axis, "quantizer", tag="per-axis")])
+    # quanto's `qfloat8` (its default float8 type, an own qtype object for float8_e4m3fn), both routes, per-tensor and per-axis
+    for fmt in ("float32", "float16", "bfloat16"):
+        dtype = FMT[fmt]
+        x = torch.cat([(torch.randn(96) * 2.0).to(dtype), torch.tensor([0.0, 0.4375, 447.9, 448.0, 500.0, -1000.0, 0.0009765625, 0.001953125 * 0.75], dtype=dtype)])
+        for route in ("activation", "quantizer"):
+            traces.append([sym_event(x, "qfloat8_e4m3fn", torch.tensor(1.0, dtype=dtype), None, route, tag="alias")])
+            traces.append([sym_event(x, "qfloat8_e4m3fn", torch.tensor(0.0123, dtype=dtype), None, route, tag="alias")])
+        x2 = (torch.randn(4, 6) * 3).to(dtype)
+        traces.append([sym_event(x2, "qfloat8_e4m3fn", torch.tensor([0.01, 0.04, 0.16, 0.64], dtype=dtype).reshape(4, 1), 0, "quantizer", tag="alias")])
     return traces
 
 
